@@ -1096,12 +1096,43 @@ Section Main.
 
     Definition is_elem_var (var : xvar) : Prop := wf_elem var = true /\ In (v_qname var, [var]) (m_elements m).
 
-    Lemma find_children_elem var : is_elem_var var -> find_children m (v_qname var) = [var].
+    (* a field bound from child elements: an element field, or the wildcard field *)
+    Definition is_wild_var (var : xvar) : Prop := is_wildvar m var.
+    Definition is_kid (var : xvar) : Prop := is_elem_var var \/ is_wild_var var.
+
+    Lemma find_children_elem var : is_elem_var var -> exists tl, find_children m (v_qname var) = var :: tl.
     Proof.
       intros [Hw Hin]. destruct (wf_class_inv m Hwc) as [F1 F2 F3 F4 F5 F6 F7 F8 F9 F10 F11 F12 F13].
-      unfold find_children. rewrite (assoc_nodup _ _ _ F8 Hin). rewrite F1. cbn [flat_map].
-      unfold find_wildcard, find_by_namespace. rewrite F2. reflexivity.
+      unfold find_children. rewrite (assoc_nodup _ _ _ F8 Hin). rewrite F1. cbn [flat_map app]. eexists; reflexivity.
     Qed.
+
+    Lemma wild_facts var : is_wild_var var ->
+      v_init var = true /\ v_is KWildcard var = true /\ v_wrapper_qname var = None /\ v_nillable var = false
+      /\ v_is KElement var = false /\ v_clazz var = None /\ True /\ v_tokens_factory var = None
+      /\ v_elements var = [] /\ v_is KText var = false.
+    Proof.
+      intros [E [Hw _]]. destruct (wf_wild_inv var Hw) as [Hk [Hc [Hn [Hwr [Hcl [Htf [_ [_ [Hkt [Hke _]]]]]]]]]].
+      destruct (var_common_w_inv var Hc) as [Hi [_ [Hany [_ [Hel _]]]]].
+      repeat split; assumption.
+    Qed.
+
+    Lemma find_children_any wv q : is_wild_var wv -> match_namespace wv q = true -> assoc q (m_elements m) = None ->
+      find_children m q = [wv].
+    Proof.
+      intros Hv Hm Hq. destruct (wf_class_inv m Hwc) as [F1 F2 F3 F4 F5 F6 F7 F8 F9 F10 F11 F12 F13].
+      destruct (wild_facts wv Hv) as [_ [_ [_ [_ [_ [_ [_ [_ [Hel _]]]]]]]]]. destruct Hv as [E _].
+      unfold find_children. rewrite Hq, F1. cbn [flat_map app].
+      unfold find_wildcard, find_by_namespace. rewrite E. cbn [find]. rewrite Hm, Hel. reflexivity.
+    Qed.
+
+    Lemma find_children_wild var : is_wild_var var -> find_children m (v_qname var) = [var].
+    Proof.
+      intros Hv. pose proof Hv as [_ [Hw [Hq _]]]. destruct (wf_wild_inv var Hw) as [_ [_ [_ [_ [_ [_ [_ [Hm _]]]]]]]].
+      apply (find_children_any var (v_qname var) Hv Hm Hq).
+    Qed.
+
+    Lemma find_children_kid var : is_kid var -> exists tl, find_children m (v_qname var) = var :: tl.
+    Proof. intros [H|H]; [apply (find_children_elem var H)|exists []; apply (find_children_wild var H)]. Qed.
 
     Lemma elem_var_facts var : is_elem_var var ->
       v_init var = true /\ v_is KWildcard var = false /\ True /\ kind_elem var.
@@ -1155,29 +1186,45 @@ Section Main.
     Qed.
 
     (* one child object of a list field *)
+    (* a generic value is bound as it is *)
+    Definition kid_value_ok (var : xvar) (y : value) : Prop := is_wild_var var -> is_model_value y = true.
+
     Lemma bind_object_list var f y rest p p' wr wr' wo ws :
-      is_elem_var var -> v_factory var = Some f ->
+      is_kid var -> kid_value_ok var y -> v_factory var = Some f ->
       wrappers_pop (v_qname var) wr = (wo, wr') -> wrap_agrees var wo ->
       coll_append (v_name var) (Some f) y p = ROk p' ->
       bind_objects_loop c m ((Some (v_qname var), y) :: rest) p wr ws = bind_objects_loop c m rest p' wr' ws.
     Proof.
-      intros Hv Hf Hpop Hag Hc. destruct (elem_var_facts var Hv) as [Hi [Hw _]].
-      cbn [bind_objects_loop find_children_opt rbind]. rewrite Hpop. cbn [rbind]. rewrite (find_children_elem var Hv).
-      cbn [bind_object_loop]. rewrite (wrapper_mismatch_no var wo Hag). rewrite Hw.
-      unfold bind_var. rewrite Hi. unfold v_list_element. rewrite Hf, Hc. reflexivity.
+      intros Hv Hy Hf Hpop Hag Hc. destruct (find_children_kid var Hv) as [tl Efc].
+      cbn [bind_objects_loop find_children_opt rbind]. rewrite Hpop. cbn [rbind]. rewrite Efc.
+      cbn [bind_object_loop]. rewrite (wrapper_mismatch_no var wo Hag).
+      destruct Hv as [Hv|Hv].
+      - destruct (elem_var_facts var Hv) as [Hi [Hw _]]. rewrite Hw.
+        unfold bind_var. rewrite Hi. unfold v_list_element. rewrite Hf, Hc. reflexivity.
+      - destruct (wild_facts var Hv) as [Hi [Hw _]]. rewrite Hw.
+        assert (Epg : prepare_generic_value c (Some (v_qname var)) y = y)
+          by (unfold prepare_generic_value; destruct (truthy_str _); [rewrite (Hy Hv); reflexivity|reflexivity]).
+        unfold bind_wild_var. rewrite Epg. unfold v_list_element. rewrite Hf, Hc. reflexivity.
     Qed.
 
     Lemma bind_object_single var y rest p wr ws :
-      is_elem_var var -> v_factory var = None -> ~ In (v_name var) (map fst p) -> ~ In (v_qname var) (map fst wr) ->
+      is_kid var -> kid_value_ok var y -> v_factory var = None -> ~ In (v_name var) (map fst p) -> ~ In (v_qname var) (map fst wr) ->
       bind_objects_loop c m ((Some (v_qname var), y) :: rest) p wr ws
       = bind_objects_loop c m rest (p ++ [(v_name var, PV y)]) wr ws.
     Proof.
-      intros Hv Hf Hfr Hq. destruct (elem_var_facts var Hv) as [Hi [Hw _]].
+      intros Hv Hy Hf Hfr Hq. destruct (find_children_kid var Hv) as [tl Efc].
       cbn [bind_objects_loop find_children_opt rbind]. rewrite (wrappers_pop_none _ _ Hq). cbn [rbind].
-      rewrite (find_children_elem var Hv).
-      cbn [bind_object_loop]. unfold wrapper_mismatch. cbn [truthy_str]. rewrite Hw.
-      unfold bind_var. rewrite Hi. unfold v_list_element. rewrite Hf.
-      rewrite (pmem_false _ _ Hfr). cbn [rbind fst snd]. rewrite (pset_fresh _ _ _ Hfr). reflexivity.
+      rewrite Efc.
+      cbn [bind_object_loop]. unfold wrapper_mismatch. cbn [truthy_str].
+      destruct Hv as [Hv|Hv].
+      - destruct (elem_var_facts var Hv) as [Hi [Hw _]]. rewrite Hw.
+        unfold bind_var. rewrite Hi. unfold v_list_element. rewrite Hf.
+        rewrite (pmem_false _ _ Hfr). cbn [rbind fst snd]. rewrite (pset_fresh _ _ _ Hfr). reflexivity.
+      - destruct (wild_facts var Hv) as [Hi [Hw _]]. rewrite Hw.
+        assert (Epg : prepare_generic_value c (Some (v_qname var)) y = y)
+          by (unfold prepare_generic_value; destruct (truthy_str _); [rewrite (Hy Hv); reflexivity|reflexivity]).
+        unfold bind_wild_var. rewrite Epg. unfold v_list_element. rewrite Hf.
+        rewrite (pget_none _ _ Hfr). cbn [rbind fst snd]. rewrite (pset_fresh _ _ _ Hfr). reflexivity.
     Qed.
 
     Lemma coll_append_fresh name f y p : ~ In name (map fst p) ->
@@ -1196,55 +1243,58 @@ Section Main.
                          wr_for var k (a ++ (v_qname var, repeat w k) :: b) (a ++ (v_qname var, []) :: b).
 
     Lemma bind_objects_more var f l : forall l0 p1 p2 rest wr wr' ws,
-      is_elem_var var -> v_factory var = Some f -> ~ In (v_name var) (map fst p1) ->
+      is_kid var -> Forall (kid_value_ok var) l -> v_factory var = Some f -> ~ In (v_name var) (map fst p1) ->
       wr_for var (length l) wr wr' ->
       bind_objects_loop c m (map (fun y => (Some (v_qname var), y)) l ++ rest) (p1 ++ (v_name var, PPend l0 (Some f)) :: p2) wr ws
       = bind_objects_loop c m rest (p1 ++ (v_name var, PPend (l0 ++ l) (Some f)) :: p2) wr' ws.
     Proof.
-      induction l as [|y l IHl]; intros l0 p1 p2 rest wr wr' ws Hv Hf Hfr Hwr.
+      induction l as [|y l IHl]; intros l0 p1 p2 rest wr wr' ws Hv Hys Hf Hfr Hwr.
       - rewrite app_nil_r. cbn [map app length] in *. inversion Hwr; subst; reflexivity.
-      - cbn [map app length] in *.
+      - cbn [map app length] in *. inversion_clear Hys as [|? ? Hy Hys'].
         inversion Hwr as [wr0 Hnk|w a b Hw Hne Hnk]; subst.
-        + rewrite (bind_object_list var f y _ _ _ wr' wr' None ws Hv Hf (wrappers_pop_none _ _ Hnk) I
+        + rewrite (bind_object_list var f y _ _ _ wr' wr' None ws Hv Hy Hf (wrappers_pop_none _ _ Hnk) I
                      (coll_append_more _ (Some f) (Some f) y l0 p1 p2 Hfr)).
-          rewrite (IHl (l0 ++ [y]) p1 p2 rest wr' wr' ws Hv Hf Hfr (wr_plain var _ wr' Hnk)).
+          rewrite (IHl (l0 ++ [y]) p1 p2 rest wr' wr' ws Hv Hys' Hf Hfr (wr_plain var _ wr' Hnk)).
           rewrite <- app_assoc. reflexivity.
         + cbn [repeat].
-          rewrite (bind_object_list var f y _ _ _ _ _ (Some w) ws Hv Hf (wrappers_pop_at _ w _ a b Hnk) (conj Hw Hne)
+          rewrite (bind_object_list var f y _ _ _ _ _ (Some w) ws Hv Hy Hf (wrappers_pop_at _ w _ a b Hnk) (conj Hw Hne)
                      (coll_append_more _ (Some f) (Some f) y l0 p1 p2 Hfr)).
-          rewrite (IHl (l0 ++ [y]) p1 p2 rest _ _ ws Hv Hf Hfr (wr_wrapped var _ w a b Hw Hne Hnk)).
+          rewrite (IHl (l0 ++ [y]) p1 p2 rest _ _ ws Hv Hys' Hf Hfr (wr_wrapped var _ w a b Hw Hne Hnk)).
           rewrite <- app_assoc. reflexivity.
     Qed.
 
     (* all the child objects of one field *)
     Lemma bind_objects_var var x rest p wr wr' ws :
-      is_elem_var var -> (occ var x <> [] -> ~ In (v_name var) (map fst p)) ->
+      is_kid var -> Forall (kid_value_ok var) (occ var x) -> (occ var x <> [] -> ~ In (v_name var) (map fst p)) ->
       (v_factory var = None -> (length (occ var x) <= 1)%nat) ->
       wr_for var (length (occ var x)) wr wr' ->
       bind_objects_loop c m (tagged var x ++ rest) p wr ws
       = bind_objects_loop c m rest (p ++ eentry var x) wr' ws.
     Proof.
-      intros Hv Hfr0 Hone Hwr. unfold tagged, eentry.
+      intros Hv Hys Hfr0 Hone Hwr. unfold tagged, eentry.
       destruct (occ var x) as [|y l] eqn:Eo.
       - rewrite app_nil_r. cbn [map app length] in *. inversion Hwr; subst; reflexivity.
       - assert (Hfr : ~ In (v_name var) (map fst p)) by (apply Hfr0; discriminate). clear Hfr0.
+        inversion_clear Hys as [|? ? Hy Hys'].
         destruct (v_factory var) as [f|] eqn:Ef.
         + cbn [map app length] in *.
           inversion Hwr as [wr0 Hnk|w a b Hw Hne Hnk]; subst.
-          * rewrite (bind_object_list var f y _ _ _ wr' wr' None ws Hv Ef (wrappers_pop_none _ _ Hnk) I
+          * rewrite (bind_object_list var f y _ _ _ wr' wr' None ws Hv Hy Ef (wrappers_pop_none _ _ Hnk) I
                        (coll_append_fresh _ (Some f) y p Hfr)).
             change (p ++ [(v_name var, PPend [y] (Some f))]) with (p ++ (v_name var, PPend [y] (Some f)) :: []).
-            rewrite (bind_objects_more var f l [y] p [] rest wr' wr' ws Hv Ef Hfr (wr_plain var _ wr' Hnk)). reflexivity.
+            rewrite (bind_objects_more var f l [y] p [] rest wr' wr' ws Hv Hys' Ef Hfr (wr_plain var _ wr' Hnk)). reflexivity.
           * cbn [repeat].
-            rewrite (bind_object_list var f y _ _ _ _ _ (Some w) ws Hv Ef (wrappers_pop_at _ w _ a b Hnk) (conj Hw Hne)
+            rewrite (bind_object_list var f y _ _ _ _ _ (Some w) ws Hv Hy Ef (wrappers_pop_at _ w _ a b Hnk) (conj Hw Hne)
                        (coll_append_fresh _ (Some f) y p Hfr)).
             change (p ++ [(v_name var, PPend [y] (Some f))]) with (p ++ (v_name var, PPend [y] (Some f)) :: []).
-            rewrite (bind_objects_more var f l [y] p [] rest _ _ ws Hv Ef Hfr (wr_wrapped var _ w a b Hw Hne Hnk)). reflexivity.
+            rewrite (bind_objects_more var f l [y] p [] rest _ _ ws Hv Hys' Ef Hfr (wr_wrapped var _ w a b Hw Hne Hnk)). reflexivity.
         + specialize (Hone eq_refl). destruct l; [|cbn [length] in Hone; lia].
           cbn [map app hd length] in *.
           inversion Hwr as [wr0 Hnk|w a b Hw Hne Hnk]; subst.
           * apply bind_object_single; assumption.
-          * exfalso. destruct Hv as [Hwe _]. destruct (wf_elem_wrapper var w Hwe Hw) as [_ [[f Hf] _]]. congruence.
+          * exfalso. destruct Hv as [[Hwe _]|Hv].
+            -- destruct (wf_elem_wrapper var w Hwe Hw) as [_ [[f Hf] _]]. congruence.
+            -- destruct (wild_facts var Hv) as [_ [_ [Hnw _]]]. congruence.
     Qed.
 
     (* ---------------------------------------------------------------- cls( **params) *)
@@ -1320,9 +1370,14 @@ Section Main.
       | None => e_item (eobj n) var y
       end.
 
-    Lemma e_items_occ var x : is_elem_var var -> e_items (eobj n) var x = map (ienode var) (occ var x).
+    Lemma kid_not_text var : is_kid var -> v_is KText var = false.
     Proof.
-      intros Hv. destruct (elem_var_facts var Hv) as [_ [_ [_ [_ [Hkt _]]]]].
+      intros [Hv|Hv]; [destruct (elem_var_facts var Hv) as [_ [_ [_ [_ [Hkt _]]]]]; exact Hkt|].
+      destruct (wild_facts var Hv) as [_ [_ [_ [_ [_ [_ [_ [_ [_ Hkt]]]]]]]]]. exact Hkt.
+    Qed.
+    Lemma e_items_occ var x : is_kid var -> e_items (eobj n) var x = map (ienode var) (occ var x).
+    Proof.
+      intros Hv. pose proof (kid_not_text var Hv) as Hkt.
       unfold RoundtripGen.e_items, occ, ienode.
       destruct x as [|p|tp l|k' f'|q0 t0 tl0 a0 c0|q0 v0 ty0|m0];
         [destruct (v_nillable var), (v_tokens_factory var); reflexivity|..]; rewrite Hkt; try reflexivity;
@@ -1330,14 +1385,14 @@ Section Main.
       destruct l as [|y l']; [reflexivity|]. destruct y; reflexivity.
     Qed.
 
-    Lemma e_field_occ var x : is_elem_var var ->
+    Lemma e_field_occ var x : is_kid var ->
       e_field (eobj n) var x = match x with
                                | VNone => if v_nillable var then e_wrap var (map (ienode var) (occ var x)) else []
                                | _ => e_wrap var (map (ienode var) (occ var x))
                                end.
     Proof. intros Hv. unfold RoundtripGen.e_field. rewrite (e_items_occ var x Hv). reflexivity. Qed.
 
-    Lemma e_field_cases var x : is_elem_var var ->
+    Lemma e_field_cases var x : is_kid var ->
       (e_field (eobj n) var x = [] /\ occ var x = [])
       \/ e_field (eobj n) var x = e_wrap var (map (ienode var) (occ var x)).
     Proof.
@@ -1514,7 +1569,8 @@ Section Main.
       intros Hv Hasg Hag Hb. pose proof Hv as [Hw Hin].
       destruct (elem_var_facts var Hv) as [Hi [Hwl [_ [Hk _]]]].
       destruct (wf_elem_inv var Hw) as [_ [Hc _]]. destruct (var_common_inv var Hc) as [_ [_ [_ [_ [_ [_ [_ [_ Hidx]]]]]]]].
-      assert (Hloop : child_loop c u (enW asg wr) (v_qname var) attrs ns (length objs) wo [var]
+      destruct (find_children_elem var Hv) as [tl Efc].
+      assert (Hloop : child_loop c u (enW asg wr) (v_qname var) attrs ns (length objs) wo (var :: tl)
                       = ROk (Some (node, enW (asg_after var asg) (wr_after var wo wr)))).
       { cbn [child_loop]. rewrite (wrapper_mismatch_no var wo Hag). rewrite Hk.
         unfold v_list_element, asg_after. destruct (v_factory var) as [f|] eqn:Ef.
@@ -1530,10 +1586,10 @@ Section Main.
           unfold wr_after. destruct wo as [w|]; [|reflexivity]. destruct Hag as [_ Hne].
           destruct w as [|ch w']; [congruence|]. reflexivity. }
       destruct wo as [w|]; cbn [ctx app Parser.step start st_queue st_objects st_warn].
-      - unfold element_child. change (en_meta (enW asg wr)) with m. rewrite (find_children_elem var Hv).
+      - unfold element_child. change (en_meta (enW asg wr)) with m. rewrite Efc.
         rewrite Hloop. reflexivity.
       - change (en_meta (enW asg wr)) with m. rewrite (elem_not_wrapper var Hv). cbn [is_some].
-        unfold element_child. change (en_meta (enW asg wr)) with m. rewrite (find_children_elem var Hv).
+        unfold element_child. change (en_meta (enW asg wr)) with m. rewrite Efc.
         rewrite Hloop. reflexivity.
     Qed.
 
@@ -1947,6 +2003,152 @@ Section Main.
       cbn [wr_after]. rewrite (wrappers_push_at _ w x a b Hn). rewrite (IHk _ a b Hn). rewrite <- app_assoc. reflexivity.
     Qed.
 
+    (* ---------------------------------------------------------------- generic elements (the wildcard field) *)
+    Hypothesis Hword : ord = true \/ m_wildcards m = [].
+    Hypothesis Hfw : forall wv, m_wildcards m = [wv] -> fits_wild u m wv (F wv) = true.
+
+    Lemma wild_ord wv : is_wild_var wv -> ord = true.
+    Proof. intros [E _]. destruct Hword as [H|H]; [exact H|congruence]. Qed.
+
+    Lemma skipn_len_app {A} (a b : list A) : skipn (length a) (a ++ b) = b.
+    Proof. induction a; [reflexivity|assumption]. Qed.
+    Lemma firstn_len_app {A} (a b : list A) : firstn (length a) (a ++ b) = a.
+    Proof. induction a as [|x a IHa]; [reflexivity|]. cbn [length app firstn]. rewrite IHa. reflexivity. Qed.
+
+    (* the attributes of a generic element come back as they were reported *)
+    Lemma any_attrs_read ns (a : list (qname * str)) attrs :
+      ord = true -> NoDup (map fst a) -> forallb any_attr_ok a = true ->
+      reads_attrs ns (map (fun kv : qname * str => (Bind.split_qname (fst kv), [AText (snd kv)])) a) attrs ->
+      attrs = a /\ parse_any_attributes attrs ns = a.
+    Proof.
+      intros Ho Hnd Hok [Hnda [Hlen [Hall Hord]]].
+      assert (E : a = attrs).
+      { apply same_keys_eq.
+        - symmetry. etransitivity; [exact (Hord Ho)|]. rewrite map_map. cbn [fst]. apply map_ext. intros kv. apply clark_split.
+        - exact Hnda.
+        - intros [k v] Hkv. destruct (Hall (Bind.split_qname k, [AText v])) as [v' [Hv' Hi]].
+          { apply in_map_iff. exists (k, v). split; [reflexivity|exact Hkv]. }
+          cbn [fst snd atoms_read] in Hv', Hi. rewrite clark_split in Hi. cbn in Hv'. inversion Hv'; subst v'. exact Hi. }
+      subst attrs. split; [reflexivity|].
+      unfold parse_any_attributes. rewrite <- (map_id a) at 2. apply map_ext_in. intros [k v] Hkv. cbn [fst snd].
+      rewrite forallb_forall in Hok. specialize (Hok (k, v) Hkv). unfold any_attr_ok in Hok. apply andb_true_iff in Hok as [_ Hnc].
+      apply negb_true_iff in Hnc. cbn [snd] in Hnc. rewrite (no_colon_literal v ns Hnc). reflexivity.
+    Qed.
+
+    Lemma e_any_elem x : fits_anyel x = true -> exists q a k, e_any x = EElem q a k.
+    Proof. intros H. destruct (fits_anyel_inv x H) as [q [s [a [ch [-> _]]]]]. cbn [e_any]. eauto. Qed.
+
+    Definition wtag (wv : xvar) (y : value) : option qname * value := (Some (v_qname wv), y).
+
+    (* the subtree of a generic element, once its WildcardNode is on the queue *)
+    Lemma any_inner_run wv : is_wild_var wv -> forall k x, (odepth x <= k)%nat -> fits_anyel x = true ->
+      forall a, reads (e_any x) a ->
+      exists q attrs ns inner, a = PStart q attrs ns :: inner
+        /\ (exists s0 a0 ch0, x = VAny (Some q) s0 None a0 ch0 /\ attrs = a0)
+        /\ forall Q objs W rest,
+             prun (mk_pstate (NWildcard wv attrs ns (length objs) :: Q) objs W) (inner ++ rest)
+             = prun (mk_pstate Q (objs ++ [wtag wv x]) W) rest.
+    Proof.
+      intros Hwv. pose proof (wild_ord wv Hwv) as Ho.
+      destruct (wild_facts wv Hwv) as [_ [Hkw [_ [Hnl _]]]].
+      induction k as [|k IHk]; intros x Hd Hf a Hr;
+        destruct (fits_anyel_inv x Hf) as [q [s [at0 [ch [-> [Hq [Hnd [Hat [Hs Hch]]]]]]]]]; [cbn [odepth] in Hd; lia|].
+      cbn [e_any] in Hr. cbn [reads_o] in Hr.
+      destruct Hr as [attrs [ns [text [tail [kes [Hp [Hra [Htl Hk]]]]]]]].
+      rewrite clark_split in Hp.
+      destruct (any_attrs_read ns at0 attrs Ho Hnd Hat Hra) as [Ea Epa]. subst attrs.
+      exists q, at0, ns, (kes ++ [PEnd q text tail]). split; [exact Hp|]. split; [eauto|].
+      intros Q objs W rest.
+      destruct ch as [|c1 chr].
+      - (* no children: the text as it is *)
+        cbn [map app] in Hk. rewrite app_nil_r in Hk.
+        assert (Ht : kes = [] /\ text = match s with [] => None | _ => Some s end).
+        { destruct s as [|c0 s']; [destruct Hk as [-> ->]; split; reflexivity|].
+          destruct Hk as [s1 [Hs1 [_ [-> ->]]]]. cbn in Hs1. inversion Hs1. split; reflexivity. }
+        destruct Ht as [-> ->]. cbn [app].
+        apply run_step. cbn [Parser.step pend st_queue st_objects st_warn].
+        unfold wildcard_bind. rewrite skipn_all, firstn_all. cbn [map]. rewrite Epa, (normalize_blank tail Htl), Hkw, Hnl.
+        cbn [is_some orb]. rewrite !orb_true_r. unfold wtag. destruct s; reflexivity.
+      - (* children: the text is white space *)
+        assert (Es : s = []) by (apply Hs; discriminate). subst s. cbn [app] in Hk.
+        assert (Hkids : blank_o text = true /\ reads_kids (map e_any (c1 :: chr)) kes).
+        { destruct (e_any_elem c1 (Hch c1 (or_introl eq_refl))) as [q1 [a1 [k1 E1]]].
+          cbn [map] in Hk |- *. rewrite E1 in Hk |- *. destruct Hk as [Hb Hk]. split; [exact Hb|exact Hk]. }
+        destruct Hkids as [Hbt Hkids].
+        assert (Hrun : forall l objs0 kes0 rest0, (forall y, In y l -> In y (c1 :: chr)) -> reads_kids (map e_any l) kes0 ->
+                  prun (mk_pstate (NWildcard wv at0 ns (length objs) :: Q) objs0 W) (kes0 ++ rest0)
+                  = prun (mk_pstate (NWildcard wv at0 ns (length objs) :: Q) (objs0 ++ map (wtag wv) l) W) rest0).
+        { induction l as [|y l IHl]; intros objs0 kes0 rest0 Hin Hrk.
+          - cbn [map reads_kids_o] in Hrk. subst kes0. cbn [map]. rewrite app_nil_r. reflexivity.
+          - cbn [map reads_kids_o] in Hrk. destruct Hrk as [a1 [b1 [-> [Ha1 Hb1]]]].
+            assert (Hy : In y (c1 :: chr)) by (apply Hin; left; reflexivity).
+            destruct (IHk y) with (a := a1) as [qy [ay [nsy [innery [-> [_ Hry]]]]]];
+              [pose proof (odepth_anychild (Some q) (Some []) None at0 (c1 :: chr) y Hy) as Hlt; cbn [odepth] in Hlt, Hd; lia|apply Hch; exact Hy|exact Ha1|].
+            rewrite <- app_assoc. cbn [app].
+            rewrite (run_step cfg c u replay root _ _
+                       (mk_pstate (NWildcard wv ay nsy (length objs0) :: NWildcard wv at0 ns (length objs) :: Q) objs0 W) _); [|reflexivity].
+            rewrite (Hry _ objs0 W (b1 ++ rest0)).
+            rewrite (IHl _ b1 rest0 (fun z Hz => Hin z (or_intror Hz)) Hb1).
+            cbn [map]. rewrite <- app_assoc. reflexivity. }
+        rewrite <- app_assoc. rewrite (Hrun (c1 :: chr) objs kes _ (fun y Hy => Hy) Hkids).
+        cbn [app]. apply run_step. cbn [Parser.step pend st_queue st_objects st_warn].
+        unfold wildcard_bind. rewrite skipn_len_app, firstn_len_app. rewrite map_map. cbn [snd]. rewrite map_id.
+        cbn [map]. rewrite Epa, (normalize_blank tail Htl), (normalize_blank text Hbt), Hkw, Hnl.
+        cbn [is_some orb]. rewrite !orb_true_r. reflexivity.
+    Qed.
+
+    (* a generic element below the class element *)
+    Lemma wild_item_run wv y a asg wr Q objs W rest :
+      is_wild_var wv -> fits_any_top u m wv y = true -> reads (e_any y) a ->
+      prun (mk_pstate (NElement (enW asg wr) :: Q) objs W) (a ++ rest)
+      = prun (mk_pstate (NElement (enW asg wr) :: Q) (objs ++ [wtag wv y]) W) rest.
+    Proof.
+      intros Hwv Hft Hr. unfold fits_any_top in Hft. apply andb_true_iff in Hft as [Hf Htop].
+      destruct (any_inner_run wv Hwv (odepth y) y (le_n _) Hf a Hr) as [q [attrs [ns [inner [-> [[s0 [a0 [ch0 [Ey Ea]]]] Hrun]]]]]].
+      subst y attrs. apply andb_true_iff in Htop as [Htop H4]. apply andb_true_iff in Htop as [Htop H3]. apply andb_true_iff in Htop as [Htop H2].
+      destruct (assoc q (m_elements m)) eqn:Eqe; [discriminate H2|]. destruct (assoc q (m_wrappers m)) eqn:Eqw; [discriminate H3|].
+      destruct (find_types u q) eqn:Eft; [|discriminate H4].
+      destruct (fits_anyel_inv _ Hf) as [q' [s' [a' [ch' [Ex [_ [_ [Hat _]]]]]]]]. inversion Ex; subst q' s0 a' ch'.
+      destruct (wild_facts wv Hwv) as [_ [Hkw [Hnw [_ [Hke [Hcl _]]]]]].
+      cbn [app].
+      rewrite (run_step cfg c u replay root _ _
+                 (mk_pstate (NWildcard wv a0 ns (length objs) :: NElement (enW asg wr) :: Q) objs W) _).
+      - apply Hrun.
+      - cbn [Parser.step start st_queue st_objects st_warn]. change (en_meta (enW asg wr)) with m. rewrite Eqw. cbn [is_some].
+        unfold element_child. change (en_meta (enW asg wr)) with m. rewrite (find_children_any wv q Hwv Htop Eqe).
+        cbn [child_loop]. unfold wrapper_mismatch. cbn [truthy_str]. rewrite Hke. cbn [andb N.eqb orb].
+        assert (Hb : build_node c u (enW asg wr) q wv a0 ns (length objs) = ROk (Some (NWildcard wv a0 ns (length objs)))).
+        { unfold build_node, v_is_clazz_union. rewrite Hcl.
+          assert (Ext : Parser.xsi_type_of c a0 ns = ROk None).
+          { unfold Parser.xsi_type_of.
+            assert (Ea : assoc XSI_TYPE a0 = None).
+            { apply assoc_none. intros Hi. apply in_map_iff in Hi as [[k0 v0] [Ek Hkv]]. cbn [fst] in Ek. subst k0.
+              rewrite forallb_forall in Hat. specialize (Hat _ Hkv). unfold any_attr_ok in Hat. apply andb_true_iff in Hat as [Hres _].
+              apply negb_true_iff in Hres. unfold reserved_name in Hres. cbn [fst] in Hres. rewrite str_eqb_refl, orb_true_r in Hres. discriminate Hres. }
+            rewrite Ea. reflexivity. }
+          rewrite Ext. cbn [rbind]. rewrite Hkw. rewrite andb_false_r. cbn iota.
+          unfold ctx_find_type, ctx_find_types. rewrite Eft.
+          destruct (c_from_qname c q); destruct (negb (str_eqb (v_process_contents wv) s_skip)); reflexivity. }
+        rewrite Hb. cbn [rbind]. reflexivity.
+    Qed.
+
+    Lemma wild_items_run wv l : forall kes asg wr Q objs W rest,
+      is_wild_var wv -> Forall (fun y => fits_any_top u m wv y = true) l ->
+      reads_kids (map (ienode wv) l) kes ->
+      prun (mk_pstate (NElement (enW asg wr) :: Q) objs W) (kes ++ rest)
+      = prun (mk_pstate (NElement (enW asg wr) :: Q) (objs ++ map (wtag wv) l) W) rest.
+    Proof.
+      induction l as [|y l IHl]; intros kes asg wr Q objs W rest Hwv Hall Hr.
+      - cbn [map reads_kids_o] in Hr. subst kes. cbn [map]. rewrite app_nil_r. reflexivity.
+      - cbn [map reads_kids_o] in Hr. destruct Hr as [a [b [-> [Ha Hb]]]]. inversion_clear Hall as [|? ? Hy Hl].
+        assert (Ei : ienode wv y = e_any y).
+        { destruct (wild_facts wv Hwv) as [_ [_ [_ [_ [_ [_ [_ [Htf _]]]]]]]]. unfold ienode. rewrite Htf.
+          unfold fits_any_top in Hy. apply andb_true_iff in Hy as [Hy _]. destruct (fits_anyel_inv y Hy) as [q [s [a0 [ch [-> _]]]]]. reflexivity. }
+        rewrite Ei in Ha. rewrite <- app_assoc.
+        rewrite (wild_item_run wv y a asg wr Q objs W (b ++ rest) Hwv Hy Ha).
+        rewrite (IHl b asg wr Q _ W rest Hwv Hl Hb). cbn [map]. rewrite <- app_assoc. reflexivity.
+    Qed.
+
     (* the entry one yielded pair (field, value) leaves in the wrappers queue *)
     Definition wentry (var : xvar) (x : value) : list (qname * list qname) :=
       match v_wrapper_qname var, occ var x with
@@ -1958,18 +2160,45 @@ Section Main.
     Definition asg_field (var : xvar) (x : value) (asg : list N) : list N :=
       match occ var x with [] => asg | _ => asg_after var asg end.
 
+    (* the items of a field bound from child elements *)
+    Definition kid_ok (var : xvar) (l : list value) : Prop :=
+      (is_elem_var var /\ Forall (item_ok var) l) \/ (is_wild_var var /\ Forall (fun y => fits_any_top u m var y = true) l).
+    Lemma kid_ok_kid var l : kid_ok var l -> is_kid var.
+    Proof. intros [[H _]|[H _]]; [left|right]; exact H. Qed.
+    Lemma kid_item_elem var l y : kid_ok var l -> In y l -> exists q a k, ienode var y = EElem q a k.
+    Proof.
+      intros [[Hv Hall]|[Hwv Hall]] Hy; rewrite Forall_forall in Hall; specialize (Hall y Hy).
+      - apply (ienode_elem var y Hv Hall).
+      - destruct (wild_facts var Hwv) as [_ [_ [_ [_ [_ [_ [_ [Htf _]]]]]]]]. unfold ienode. rewrite Htf.
+        unfold fits_any_top in Hall. apply andb_true_iff in Hall as [Hall _].
+        destruct (fits_anyel_inv y Hall) as [q [s [a0 [ch [-> _]]]]]. cbn [RoundtripGen.e_item e_any]. eauto.
+    Qed.
+    (* the wildcard field never counts as assigned *)
+    Definition asg_k (var : xvar) (x : value) (asg : list N) : list N :=
+      if v_is KWildcard var then asg else asg_field var x asg.
+
     Lemma var_run var x kes asg wr Q objs W rest :
-      is_elem_var var -> Forall (item_ok var) (occ var x) ->
+      kid_ok var (occ var x) ->
       (v_factory var = None -> (length (occ var x) <= 1)%nat) ->
       (v_factory var = None -> ~ In (v_index var) asg) ->
       (forall w, v_wrapper_qname var = Some w -> ~ In (v_qname var) (map fst wr)) ->
       reads_kids (e_field (eobj n) var x) kes ->
       prun (mk_pstate (NElement (enW asg wr) :: Q) objs W) (kes ++ rest)
-      = prun (mk_pstate (NElement (enW (asg_field var x asg) (wr ++ wentry var x)) :: Q) (objs ++ tagged var x) W) rest.
+      = prun (mk_pstate (NElement (enW (asg_k var x asg) (wr ++ wentry var x)) :: Q) (objs ++ tagged var x) W) rest.
     Proof.
-      intros Hv Hall Hone Hasg Hwq Hr.
+      intros [[Hv Hall]|[Hwv Hall]] Hone Hasg Hwq Hr.
+      2:{ (* the wildcard field *)
+          destruct (wild_facts var Hwv) as [_ [Hkw [Hnw _]]].
+          unfold asg_k, wentry, tagged. rewrite Hkw, Hnw, app_nil_r.
+          destruct (e_field_cases var x (or_intror Hwv)) as [[Ee Eo]|Ee]; rewrite Ee in Hr.
+          - cbn [reads_kids_o] in Hr. subst kes. rewrite Eo. cbn [map app]. rewrite app_nil_r. reflexivity.
+          - unfold RoundtripGen.e_wrap in Hr. rewrite Hnw in Hr.
+            apply (wild_items_run var (occ var x) kes asg wr Q objs W rest Hwv Hall Hr). }
+      assert (Eak : asg_k var x asg = asg_field var x asg).
+      { unfold asg_k. destruct (elem_var_facts var Hv) as [_ [Hkw _]]. rewrite Hkw. reflexivity. }
+      rewrite Eak. clear Eak.
       pose proof Hv as [Hwe _].
-      destruct (e_field_cases var x Hv) as [[Ee Eo]|Ee]; rewrite Ee in Hr.
+      destruct (e_field_cases var x (or_introl Hv)) as [[Ee Eo]|Ee]; rewrite Ee in Hr.
       { cbn [reads_kids_o] in Hr. subst kes. unfold asg_field, tagged, wentry. rewrite Eo.
         destruct (v_wrapper_qname var); cbn [map app]; rewrite !app_nil_r; reflexivity. }
       unfold asg_field, tagged, wentry. unfold RoundtripGen.e_wrap in Hr.
@@ -2041,8 +2270,9 @@ Section Main.
     Proof.
       unfold avars, evars. rewrite (avars_eq m Hwc), (evars_eq m Hwc), (allvars_eq m Hwc).
       eapply Permutation_trans; [|apply Permutation_sym, sort_perm].
+      eapply Permutation_trans; [apply Permutation_app; apply sort_perm|].
       rewrite (app_assoc (m_any_attributes m)).
-      apply Permutation_app; apply sort_perm.
+      apply Permutation_app_swap_app.
     Qed.
 
     Lemma evars_names_nodup : NoDup (map v_name evars) /\ NoDup (map v_index evars).
@@ -2079,24 +2309,62 @@ Section Main.
     Proof.
       intros Htx. destruct (wf_class_inv m Hwc) as [F1 F2 F3 F4 F5 F6 F7 F8 F9 F10 F11 F12 F13].
       unfold evars. rewrite (evars_eq m Hwc), Htx, app_nil_r. apply sort_nodup_map.
-      clear -F7 F8. induction (m_elements m) as [|[k vs] r IHr]; [constructor|].
-      cbn [forallb fst snd map] in *. apply andb_true_iff in F7 as [Hk Hr]. inversion F8 as [|? ? Hn Hd]; subst.
-      destruct vs as [|v [|? ?]]; try discriminate Hk. apply andb_true_iff in Hk as [Hq _]. apply str_eqb_eq in Hq.
-      cbn [flat_map app map]. constructor; [|apply IHr; assumption].
-      rewrite Hq. intros Hi. apply Hn. apply in_map_iff in Hi as [v' [Ev Hv']]. apply in_flat_map in Hv' as [[k' vs'] [He Hv']].
-      rewrite forallb_forall in Hr. specialize (Hr _ He). cbn [fst snd] in Hr, Hv'.
-      destruct vs' as [|v2 [|? ?]]; try discriminate Hr. destruct Hv' as [->|[]]. apply andb_true_iff in Hr as [Hq2 _].
-      apply str_eqb_eq in Hq2. rewrite <- Ev, Hq2. apply in_map_iff. exists (k', [v']). split; [reflexivity|exact He].
+      assert (Hkeys : forall v, In v (flat_map snd (m_elements m)) -> In (v_qname v) (map fst (m_elements m))).
+      { intros v Hv. apply in_flat_map in Hv as [[k vs] [He Hv]]. rewrite forallb_forall in F7. specialize (F7 _ He). cbn [fst snd] in F7, Hv.
+        destruct vs as [|v2 [|? ?]]; try discriminate F7. destruct Hv as [->|[]]. apply andb_true_iff in F7 as [Hq _].
+        apply str_eqb_eq in Hq. rewrite Hq. apply in_map_iff. exists (k, [v]). split; [reflexivity|exact He]. }
+      assert (Hel : NoDup (map v_qname (flat_map snd (m_elements m)))).
+      { clear -F7 F8. induction (m_elements m) as [|[k vs] r IHr]; [constructor|].
+        cbn [forallb fst snd map] in *. apply andb_true_iff in F7 as [Hk Hr]. inversion F8 as [|? ? Hn Hd]; subst.
+        destruct vs as [|v [|? ?]]; try discriminate Hk. apply andb_true_iff in Hk as [Hq _]. apply str_eqb_eq in Hq.
+        cbn [flat_map app map]. constructor; [|apply IHr; assumption].
+        rewrite Hq. intros Hi. apply Hn. apply in_map_iff in Hi as [v' [Ev Hv']]. apply in_flat_map in Hv' as [[k' vs'] [He Hv']].
+        rewrite forallb_forall in Hr. specialize (Hr _ He). cbn [fst snd] in Hr, Hv'.
+        destruct vs' as [|v2 [|? ?]]; try discriminate Hr. destruct Hv' as [->|[]]. apply andb_true_iff in Hr as [Hq2 _].
+        apply str_eqb_eq in Hq2. rewrite <- Ev, Hq2. apply in_map_iff. exists (k', [v']). split; [reflexivity|exact He]. }
+      destruct F2 as [E|[wv [E [_ [Hna _]]]]]; rewrite E; cbn [app map]; [exact Hel|].
+      constructor; [|exact Hel]. intros Hi. apply in_map_iff in Hi as [v [Ev Hv]]. apply Hkeys in Hv. rewrite Ev in Hv.
+      destruct (assoc_some_in _ _ Hv) as [x0 Hx0]. congruence.
     Qed.
 
     (* ---------------------------------------------------------------- the yielded pairs, in the order of next_value *)
     Let ps := pairs cl fs m.
 
     Lemma pairs_ok : pairs_spec cl fs m ps.
-    Proof. apply (class_pairs_fits c u ok _ _ cl fs m Hwc Hnames Hfe). Qed.
+    Proof. apply (class_pairs_fits c u ok _ _ cl fs m Hwc Hnames Hfe Hfw). Qed.
 
-    Lemma evar_elem : m_text m = None -> forall var, In var evars -> is_elem_var var.
-    Proof. intros Htx var Hv. destruct (wf_class_evar m var Hwc Hv) as [[Hw Hi]|[Ht _]]; [split; assumption|congruence]. Qed.
+    Lemma evar_kid : m_text m = None -> forall var, In var evars -> is_kid var.
+    Proof.
+      intros Htx var Hv. destruct (wf_class_evar m var Hwc Hv) as [[Hw Hi]|[[Ht _]|Hwv]]; [left; split; assumption|congruence|right; exact Hwv].
+    Qed.
+
+    (* the values of the wildcard field *)
+    Lemma wild_field_facts wv : is_wild_var wv ->
+      Forall (fun y => fits_any_top u m wv y = true) (occ wv (F wv))
+      /\ (v_factory wv = None -> (length (occ wv (F wv)) <= 1)%nat)
+      /\ (forall pv, eentry wv (F wv) = [(v_name wv, pv)] -> pval_value pv = F wv)
+      /\ (occ wv (F wv) = [] -> default_call (v_default wv) = F wv).
+    Proof.
+      intros Hwv. pose proof Hwv as [E [Hww _]]. pose proof (Hfw wv E) as Hf. unfold fits_wild in Hf.
+      destruct (wf_wild_inv wv Hww) as [_ [_ [Hnl [_ [_ [Htf [_ [_ [_ [_ [_ Hfd]]]]]]]]]]].
+      unfold eentry, occ. rewrite Htf, Hnl.
+      destruct (v_factory wv) as [f|] eqn:Ef.
+      - destruct Hfd as [-> Hd]. destruct (F wv) as [| |t l| | | |]; try discriminate Hf. destruct t; [discriminate Hf|].
+        split; [apply Forall_forall; intros y Hy; rewrite forallb_forall in Hf; apply Hf; exact Hy|].
+        split; [discriminate|]. split.
+        + intros pv E0. destruct l; [discriminate E0|]. inversion E0; subst. reflexivity.
+        + intros ->. rewrite Hd. reflexivity.
+      - destruct (F wv) as [| |t l| | | |] eqn:Ex.
+        2-7: (assert (Hy : fits_any_top u m wv (F wv) = true) by (rewrite Ex; exact Hf)).
+        + split; [constructor|]. split; [intros _; cbn; lia|]. split; [intros pv E0; discriminate E0|]. intros _. rewrite Hfd. reflexivity.
+        + unfold fits_any_top in Hf. apply andb_true_iff in Hf as [Hf _]. discriminate Hf.
+        + unfold fits_any_top in Hf. apply andb_true_iff in Hf as [Hf _]. discriminate Hf.
+        + unfold fits_any_top in Hf. apply andb_true_iff in Hf as [Hf _]. discriminate Hf.
+        + split; [constructor; [exact Hf|constructor]|]. split; [intros _; cbn; lia|].
+          split; [intros pv E0; inversion E0; reflexivity|discriminate].
+        + unfold fits_any_top in Hf. apply andb_true_iff in Hf as [Hf _]. discriminate Hf.
+        + unfold fits_any_top in Hf. apply andb_true_iff in Hf as [Hf _]. discriminate Hf.
+    Qed.
 
     Lemma evar_same a b : In a evars -> In b evars -> v_index a = v_index b -> a = b.
     Proof. destruct evars_names_nodup as [_ Hni]. apply (nodup_map_inj v_index evars a b Hni). Qed.
@@ -2107,18 +2375,38 @@ Section Main.
     Lemma evar_name_neq a b : In a evars -> In b evars -> v_index a <> v_index b -> v_name a <> v_name b.
     Proof. intros Ha Hb Hne E. apply Hne. f_equal. apply (names_inj a b (evar_all a Ha) (evar_all b Hb) E). Qed.
 
+    Lemma kid_field_facts var : is_kid var ->
+      (forall pv, eentry var (F var) = [(v_name var, pv)] -> pval_value pv = F var)
+      /\ (occ var (F var) = [] -> default_call (v_default var) = F var)
+      /\ v_init var = true.
+    Proof.
+      intros [Hv|Hv].
+      - destruct (elem_field_facts var Hv) as [_ [_ [H3 H4]]]. destruct (elem_var_facts var Hv) as [Hi _]. repeat split; assumption.
+      - destruct (wild_field_facts var Hv) as [_ [_ [H3 H4]]]. destruct (wild_facts var Hv) as [Hi _]. repeat split; assumption.
+    Qed.
+
     Definition pair_ok (vv : xvar * value) : Prop :=
-      is_elem_var (fst vv) /\ Forall (item_ok (fst vv)) (occ (fst vv) (snd vv))
+      kid_ok (fst vv) (occ (fst vv) (snd vv))
       /\ (v_factory (fst vv) = None -> (length (occ (fst vv) (snd vv)) <= 1)%nat).
 
     Lemma pair_facts vv : m_text m = None -> In vv ps -> In (fst vv) evars /\ pair_ok vv.
     Proof.
       intros Htx Hin. destruct (ps_src _ _ _ _ pairs_ok vv Hin) as [Hvar [Hxn Hsrc]].
       destruct vv as [var x]. cbn [fst snd] in *. split; [exact Hvar|].
-      pose proof (evar_elem Htx var Hvar) as Hv. unfold pair_ok. cbn [fst snd].
+      unfold pair_ok. cbn [fst snd].
+      destruct (evar_kid Htx var Hvar) as [Hv|Hwv].
+      2:{ (* the wildcard field *)
+          destruct (wild_field_facts var Hwv) as [H1 [H2 _]].
+          destruct Hsrc as [Hw|[f [t [l [Hf [Htf [Hwn [El Hil]]]]]]]]; cbn [fst snd] in *.
+          - unfold pair_whole in Hw. cbn [fst snd] in Hw. rewrite Hw. split; [right; split; assumption|exact H2].
+          - unfold occ in H1. unfold F in H1. rewrite El, Htf in H1. rewrite Forall_forall in H1. pose proof (H1 x Hil) as Hx.
+            assert (Ho : occ var x = [x]).
+            { unfold occ. rewrite Htf. unfold fits_any_top in Hx. apply andb_true_iff in Hx as [Hx _].
+              destruct (fits_anyel_inv x Hx) as [q0 [s0 [a0 [ch0 [-> _]]]]]. reflexivity. }
+            rewrite Ho. split; [right; split; [exact Hwv|constructor; [exact Hx|constructor]]|intros _; cbn; lia]. }
       destruct Hsrc as [Hw|[f [t [l [Hf [Htf [Hwn [El Hil]]]]]]]]; cbn [fst snd] in *.
       - unfold pair_whole in Hw. cbn [fst snd] in Hw. rewrite Hw.
-        destruct (elem_field_facts var Hv) as [H1 [H2 _]]. split; [exact Hv|split; assumption].
+        destruct (elem_field_facts var Hv) as [H1 [H2 _]]. split; [left; split; assumption|assumption].
       - pose proof Hv as [Hwe Hine]. pose proof (Hfe _ var Hine (or_introl eq_refl)) as Hfv.
         unfold F in Hfv. rewrite El in Hfv. unfold Fits.fits_elem in Hfv. rewrite Hf, Htf in Hfv.
         apply andb_true_iff in Hfv as [_ Hfl]. rewrite forallb_forall in Hfl. specialize (Hfl x Hil).
@@ -2129,7 +2417,7 @@ Section Main.
           - destruct (fits_item_simple c u ok _ var t0 x Hty Hst Hfl) as [p [-> _]]. reflexivity.
           - destruct (fits_item_qname c u ok _ var x Hty Hfl) as [q1 [-> _]]. reflexivity.
           - destruct (fits_item_any c u ok _ var x Hty Hfl) as [sx [-> _]]. reflexivity. }
-        rewrite Ho. split; [exact Hv|split].
+        rewrite Ho. split; [left; split; [exact Hv|]|].
         + constructor; [|constructor]. apply (item_ok_item var x Htf Hfl).
         + intros _. cbn. lia.
     Qed.
@@ -2169,17 +2457,19 @@ Section Main.
       induction l as [|[var x] l IHl]; intros kes asg wr Q objs W rest Htx Hall Hnd Hfr Hr.
       - cbn [flat_map reads_kids_o] in Hr. subst kes. exists asg. rewrite !app_nil_r. reflexivity.
       - cbn [flat_map fst snd] in Hr. apply reads_kids_app in Hr as [k1 [k2 [-> [H1 H2]]]].
-        destruct (Hall (var, x) (or_introl eq_refl)) as [Hvar [Hv [Hio Hone]]]. cbn [fst snd] in *.
+        destruct (Hall (var, x) (or_introl eq_refl)) as [Hvar [Hio Hone]]. cbn [fst snd] in *.
         rewrite <- app_assoc.
-        rewrite (var_run var x k1 asg wr Q objs W (k2 ++ rest) Hv Hio Hone).
+        rewrite (var_run var x k1 asg wr Q objs W (k2 ++ rest) Hio Hone).
         2:{ intros Hf. apply (Hfr (var, x) (or_introl eq_refl) (once_nofactory var Hf)). }
         2:{ intros w Hw. apply (Hfr (var, x) (or_introl eq_refl)). apply once_wrapped. cbn [fst]. congruence. }
         2:{ exact H1. }
-        destruct (IHl k2 (asg_field var x asg) (wr ++ wentry var x) Q (objs ++ tagged var x) W rest Htx) as [asg' Hrun].
+        destruct (IHl k2 (asg_k var x asg) (wr ++ wentry var x) Q (objs ++ tagged var x) W rest Htx) as [asg' Hrun].
         + intros vv Hvv. apply Hall. right; exact Hvv.
         + apply (once_tail _ _ Hnd).
         + intros vv Hvv Ho. destruct (Hfr vv (or_intror Hvv) Ho) as [Ha Hq]. split.
-          * intros Hi. apply asg_field_in in Hi as [Hi|[Hi Hf]]; [exact (Ha Hi)|].
+          * intros Hi. assert (Hi' : In (idx vv) (asg_field var x asg) \/ In (idx vv) asg) by (unfold asg_k in Hi; destruct (v_is KWildcard var); [right|left]; exact Hi).
+            destruct Hi' as [Hi'|Hi']; [|exact (Ha Hi')]. clear Hi. rename Hi' into Hi.
+            apply asg_field_in in Hi as [Hi|[Hi Hf]]; [exact (Ha Hi)|].
             apply (once_head_other var x l vv Hnd (once_nofactory var Hf) Hvv Ho). exact Hi.
           * intros Hi. rewrite map_app in Hi. apply in_app_or in Hi as [Hi|Hi]; [exact (Hq Hi)|].
             apply wentry_keys in Hi as [Hk Hw].
@@ -2248,7 +2538,13 @@ Section Main.
     Proof.
       induction l as [|[var x] l IHl]; intros acc p a Htx Hall Hnd Hsel Hka Hwa HI.
       - exists p. cbn [flat_map bind_objects_loop]. rewrite !app_nil_r. split; [reflexivity|exact HI].
-      - destruct (Hall (var, x) (or_introl eq_refl)) as [Hvar [Hv [Hio Hone]]]. cbn [fst snd] in *.
+      - destruct (Hall (var, x) (or_introl eq_refl)) as [Hvar [Hio Hone]]. cbn [fst snd] in *.
+        pose proof (kid_ok_kid var _ Hio) as Hv.
+        assert (Hvals : Forall (kid_value_ok var) (occ var x)).
+        { destruct Hio as [[Hev0 _]|[_ Hf]]; apply Forall_forall; intros y Hy Hwv0.
+          - exfalso. destruct (elem_var_facts var Hev0) as [_ [Hk _]]. destruct (wild_facts var Hwv0) as [_ [Hk' _]]. congruence.
+          - rewrite Forall_forall in Hf. specialize (Hf y Hy). unfold fits_any_top in Hf. apply andb_true_iff in Hf as [Hf _].
+            destruct (fits_anyel_inv y Hf) as [q0 [s0 [a0 [ch0 [-> _]]]]]. reflexivity. }
         cbn [flat_map]. change (taggedp (var, x)) with (tagged var x). change (wentryp (var, x)) with (wentry var x).
         assert (Hrestk : forall k, In k (map fst (flat_map wentryp l)) ->
                   exists vv, In vv l /\ k = v_qname (fst vv) /\ v_wrapper_qname (fst vv) <> None).
@@ -2283,7 +2579,9 @@ Section Main.
           unfold wentry. destruct (v_wrapper_qname var) as [w|] eqn:Ew.
           - destruct (occ var x) as [|y0 l0] eqn:Eo.
             + exists a. cbn [app]. repeat split; assumption.
-            + destruct Hv as [Hwe _]. destruct (wf_elem_wrapper var w Hwe Ew) as [Hne _].
+            + assert (Hne : w <> []).
+              { destruct Hv as [[Hwe _]|Hwv0]; [destruct (wf_elem_wrapper var w Hwe Ew) as [Hne _]; exact Hne|].
+                destruct (wild_facts var Hwv0) as [_ [_ [Hnw _]]]. congruence. }
               exists (a ++ [(v_qname var, [])]). cbn [app]. rewrite <- app_assoc. cbn [app]. split; [|split].
               * apply wr_wrapped; [exact Ew|exact Hne|exact K1].
               * intros k Hi. rewrite map_app in Hi. apply in_app_or in Hi as [Hi|[Hi|[]]]; [apply Hka; exact Hi|].
@@ -2302,7 +2600,7 @@ Section Main.
           assert (Hocc : occ var x = [] \/ occ var x <> []) by (destruct (occ var x); [left; reflexivity|right; discriminate]).
           destruct Hocc as [Eo|Hne].
           - exists p. split; [|apply inv_skip; assumption].
-            rewrite (bind_objects_var var x (flat_map taggedp l) p _ (a' ++ flat_map wentryp l) [] Hv
+            rewrite (bind_objects_var var x (flat_map taggedp l) p _ (a' ++ flat_map wentryp l) [] Hv Hvals
                        (fun H => False_ind _ (H Eo)) Hone Hwrf).
             unfold eentry. rewrite Eo, app_nil_r. reflexivity.
           - exists (pset (v_name var) (pentry var (sel var acc ++ occ var x)) p).
@@ -2310,7 +2608,7 @@ Section Main.
             destruct (sel var acc) as [|c0 cur] eqn:Ecur.
             + assert (Hfr : ~ In (v_name var) (map fst p)).
               { apply pget_none_inv. rewrite (I2 var Hvar), Ecur. reflexivity. }
-              rewrite (bind_objects_var var x (flat_map taggedp l) p _ (a' ++ flat_map wentryp l) [] Hv
+              rewrite (bind_objects_var var x (flat_map taggedp l) p _ (a' ++ flat_map wentryp l) [] Hv Hvals
                          (fun _ => Hfr) Hone Hwrf).
               cbn [app]. rewrite (pset_fresh _ _ _ Hfr). unfold eentry, pentry.
               destruct (occ var x); [contradiction|reflexivity].
@@ -2322,7 +2620,7 @@ Section Main.
               destruct (pget_split _ _ p Hg) as [p1 [p2 [Ep Hk1]]].
               unfold tagged. rewrite Ep.
               rewrite (bind_objects_more var f (occ var x) (c0 :: cur) p1 p2 (flat_map taggedp l) _ (a' ++ flat_map wentryp l) []
-                         Hv Ef Hk1 Hwrf).
+                         Hv Hvals Ef Hk1 Hwrf).
               rewrite (pset_replace _ _ p1 _ p2 Hk1). unfold pentry. rewrite Ef. reflexivity. }
         destruct Hcase as [pnew [Hstep HInew]].
         destruct (IHl (acc ++ [(var, x)]) pnew a' Htx) as [p' [Hrun HI']]; try assumption.
@@ -2336,13 +2634,13 @@ Section Main.
     Proof. destruct (str_eqb_spec a b); [left|right]; assumption. Qed.
 
     Lemma end_complex asg q text tail Q objs W :
-      m_text m = None -> pos0 = length objs -> reads_attrs ns0 eatsx attrs0 -> blank_o tail = true ->
+      m_text m = None -> pos0 = length objs -> reads_attrs ns0 eatsx attrs0 -> blank_o tail = true -> blank_o text = true ->
       pstep (mk_pstate (NElement (enW asg (flat_map wentryp ps)) :: Q) (objs ++ flat_map taggedp ps) W) (PEnd q text tail)
       = ROk (mk_pstate Q (objs ++ [(Some q, VObj cl fs)]) W).
     Proof.
-      intros Htx Hpos Hra Htl.
+      intros Htx Hpos Hra Htl Hbtx.
       destruct (wf_class_inv m Hwc) as [F1 F2 F3 F4 F5 F6 F7 F8 F9 F10 F11 F12 F13].
-      pose proof (evar_elem Htx) as Hev.
+      pose proof (evar_kid Htx) as Hev.
       destruct (bind_attrs_ok (enW asg (flat_map wentryp ps)) attrs0 eq_refl eq_refl Hra) as [pa [Hba [Hnd [Hin Habs]]]].
       assert (Hpa_e : forall var, In var evars -> ~ In (v_name var) (map fst pa)).
       { intros var Hv Hi. apply in_map_iff in Hi as [[k pv] [Ek Hk]]. cbn [fst] in Ek. subst k.
@@ -2361,12 +2659,19 @@ Section Main.
       cbn [Parser.step pend st_queue st_objects st_warn]. unfold element_bind.
       change (xsi_nil_true (enW asg (flat_map wentryp ps))) with false. cbn [negb orb].
       rewrite Hba. cbn [rbind fst snd].
-      unfold bind_content. change (en_meta (enW asg (flat_map wentryp ps))) with m. unfold find_any_wildcard. rewrite F2. cbn [hd_error].
-      change (en_position (enW asg (flat_map wentryp ps))) with pos0.
-      change (en_wrappers (enW asg (flat_map wentryp ps))) with ([] ++ flat_map wentryp ps).
-      rewrite Hpos, skipn_app_len, firstn_app_len.
-      rewrite Hrun.
-      cbn [rbind fst snd]. unfold bind_text. change (en_meta (enW asg (flat_map wentryp ps))) with m. rewrite Htx. cbn [rbind app].
+      assert (Ebc : bind_content cfg c (enW asg (flat_map wentryp ps)) pa text tail (objs ++ flat_map taggedp ps)
+                    = ROk (p', objs, [], false)).
+      { unfold bind_content. change (en_meta (enW asg (flat_map wentryp ps))) with m. unfold find_any_wildcard.
+        change (en_position (enW asg (flat_map wentryp ps))) with pos0.
+        change (en_wrappers (enW asg (flat_map wentryp ps))) with ([] ++ flat_map wentryp ps).
+        rewrite Hpos, skipn_app_len, firstn_app_len.
+        destruct F2 as [E|[wv [E [Hww _]]]]; rewrite E; cbn [hd_error].
+        - rewrite Hrun. cbn [rbind fst snd]. unfold bind_text. change (en_meta (enW asg (flat_map wentryp ps))) with m. rewrite Htx.
+          cbn [rbind app]. reflexivity.
+        - destruct (wf_wild_inv wv Hww) as [_ [Hcw _]]. destruct (var_common_w_inv wv Hcw) as [_ [Hmx _]]. rewrite Hmx.
+          rewrite Hrun. cbn [rbind fst snd]. unfold bind_text. change (en_meta (enW asg (flat_map wentryp ps))) with m. rewrite Htx.
+          cbn [rbind app]. unfold bind_wild_text. rewrite (normalize_blank text Hbtx), (normalize_blank tail Htl). reflexivity. }
+      rewrite Ebc. cbn [rbind fst snd]. change (en_meta (enW asg (flat_map wentryp ps))) with m.
       rewrite (class_factory_ok p').
       - cbn [rbind]. change (en_derived (enW asg (flat_map wentryp ps))) with false. cbn iota.
         unfold append_tail. rewrite (normalize_blank tail Htl).
@@ -2378,7 +2683,7 @@ Section Main.
         + apply in_map_iff in Hi as [ve [En Hve]]. subst k. exists ve. split; [apply evar_all; exact Hve|].
           split; [reflexivity|].
           pose proof (J2 ve Hve) as Hp. unfold pget in Hp. rewrite Hg, (Hsel ve Hve) in Hp.
-          destruct (elem_field_facts ve (Hev ve Hve)) as [_ [_ [Hval _]]].
+          destruct (kid_field_facts ve (Hev ve Hve)) as [Hval _].
           apply Hval. unfold eentry. unfold pv_of, pentry in Hp.
           destruct (occ ve (F ve)) eqn:Eo; [discriminate Hp|]. inversion Hp. reflexivity.
         + assert (Hg' : pget k pa = Some pv).
@@ -2392,14 +2697,14 @@ Section Main.
           assert (Hg : pget (v_name var) p' = Some pv).
           { rewrite (J3 (v_name var)); [exact Hpv|]. intros ve Hve E. apply (avar_evar_disjoint var ve Ha Hve). symmetry. exact E. }
           apply assoc_in in Hg. apply in_map_iff. exists (v_name var, pv). split; [reflexivity|exact Hg].
-        + destruct (elem_field_facts var (Hev var He)) as [_ [_ [_ Hdef]]]. apply Hdef.
+        + destruct (kid_field_facts var (Hev var He)) as [_ [Hdef _]]. apply Hdef.
           pose proof (J2 var He) as Hp. rewrite (pget_none _ _ Hnot), (Hsel var He) in Hp.
           unfold pv_of in Hp. destruct (occ var (F var)); [reflexivity|discriminate Hp].
       - (* init fields *)
         intros var Hv. destruct (allvars_split var Hv) as [Ha|He].
         + pose proof (avar_common var Ha) as Hc.
           destruct (var_common_inv var Hc) as [Hi _]. exact Hi.
-        + destruct (elem_var_facts var (Hev var He)) as [Hi _]. exact Hi.
+        + destruct (kid_field_facts var (Hev var He)) as [_ [_ Hi]]. exact Hi.
     Qed.
 
     (* simple content: a Text field, no element fields *)
@@ -2454,7 +2759,7 @@ Section Main.
       destruct (wf_class_inv m Hwc) as [F1 F2 F3 F4 F5 F6 F7 F8 F9 F10 F11 F12 F13].
       rewrite Htx in F11. destruct F11 as [Hwt Hnoe].
       assert (Hevars : evars = [tv]).
-      { unfold evars. rewrite (evars_eq m Hwc), Hnoe, Htx. reflexivity. }
+      { unfold evars. rewrite (evars_eq m Hwc), Hnoe, Htx, (text_no_wild m tv Hwc Htx). reflexivity. }
       assert (Htv : In tv evars) by (rewrite Hevars; left; reflexivity).
       destruct (wf_text_inv tv Hwt) as [_ [Hcm _]]. destruct (var_common_inv tv Hcm) as [Hinit _].
       destruct (bind_attrs_ok (enW asg wr) attrs0 eq_refl eq_refl Hra) as [pa [Hba [Hnd [Hin Habs]]]].
@@ -2469,7 +2774,7 @@ Section Main.
       cbn [Parser.step pend st_queue st_objects st_warn]. unfold element_bind.
       change (xsi_nil_true (enW asg wr)) with false. cbn [negb orb].
       rewrite Hba. cbn [rbind fst snd].
-      unfold bind_content. change (en_meta (enW asg wr)) with m. unfold find_any_wildcard. rewrite F2. cbn [hd_error].
+      unfold bind_content. change (en_meta (enW asg wr)) with m. unfold find_any_wildcard. rewrite (text_no_wild m tv Hwc Htx). cbn [hd_error].
       change (en_position (enW asg wr)) with pos0. change (en_wrappers (enW asg wr)) with wr.
       rewrite Hpos, skipn_all, firstn_all. cbn [bind_objects_loop rbind fst snd].
       unfold bind_text. change (en_meta (enW asg wr)) with m. rewrite Htx.
@@ -2540,7 +2845,7 @@ Section Main.
       destruct (wf_class_inv m Hwc) as [F1 F2 F3 F4 F5 F6 F7 F8 F9 F10 F11 F12 F13].
       rewrite Htx in F11. destruct F11 as [Hwt Hnoe].
       assert (Hevars : evars = [tv]).
-      { unfold evars. rewrite (evars_eq m Hwc), Hnoe, Htx. reflexivity. }
+      { unfold evars. rewrite (evars_eq m Hwc), Hnoe, Htx, (text_no_wild m tv Hwc Htx). reflexivity. }
       assert (Htv : In tv evars) by (rewrite Hevars; left; reflexivity).
       destruct (wf_text_inv tv Hwt) as [_ [Hcm _]]. destruct (var_common_inv tv Hcm) as [Hinit _].
       destruct (bind_attrs_ok (enW asg wr) attrs0 eq_refl eq_refl Hra) as [pa [Hba [Hnd [Hin Habs]]]].
@@ -2559,7 +2864,7 @@ Section Main.
       cbn [Parser.step pend st_queue st_objects st_warn]. unfold element_bind.
       change (xsi_nil_true (enW asg wr)) with false. cbn [negb orb].
       rewrite Hba. cbn [rbind fst snd].
-      unfold bind_content. change (en_meta (enW asg wr)) with m. unfold find_any_wildcard. rewrite F2. cbn [hd_error].
+      unfold bind_content. change (en_meta (enW asg wr)) with m. unfold find_any_wildcard. rewrite (text_no_wild m tv Hwc Htx). cbn [hd_error].
       change (en_position (enW asg wr)) with pos0. change (en_wrappers (enW asg wr)) with wr.
       rewrite Hpos, skipn_all, firstn_all. cbn [bind_objects_loop rbind fst snd].
       unfold bind_text. change (en_meta (enW asg wr)) with m. rewrite Htx.
@@ -2638,9 +2943,17 @@ Section Main.
     assert (Hmaps : ord = true \/ m_any_attributes m = []).
     { destruct Hmapsu as [Ho|Hno]; [left; exact Ho|right].
       unfold nomaps_u in Hno. rewrite forallb_forall in Hno. specialize (Hno (cl, m) (assocN_in _ _ _ Hm)).
-      cbn [snd] in Hno. rewrite Hwc in Hno. cbn [negb orb] in Hno. destruct (m_any_attributes m); [reflexivity|discriminate Hno]. }
+      cbn [snd] in Hno. rewrite Hwc in Hno. cbn [negb orb] in Hno. apply andb_true_iff in Hno as [Hno _].
+      destruct (m_any_attributes m); [reflexivity|discriminate Hno]. }
     assert (Hxfree : xsi_val xt <> None -> find_any_attributes m XSI_TYPE = None)
       by (intros Hx0; apply (Hxf Hx0 m Hm)).
+    assert (Hfw : forall wv, m_wildcards m = [wv] -> fits_wild u m wv (field_of fs wv) = true)
+      by (intros wv Hwv; apply (fits_wildvar c u ok py_isspace n cl fs m wv Hfit Hm Hwv)).
+    assert (Hword : ord = true \/ m_wildcards m = []).
+    { destruct Hmapsu as [Ho|Hno]; [left; exact Ho|right].
+      unfold nomaps_u in Hno. rewrite forallb_forall in Hno. specialize (Hno (cl, m) (assocN_in _ _ _ Hm)).
+      cbn [snd] in Hno. rewrite Hwc in Hno. cbn [negb orb] in Hno. apply andb_true_iff in Hno as [_ Hno].
+      destruct (m_wildcards m); [reflexivity|discriminate Hno]. }
     destruct (reads_attrs_carried fs m Hwc Hfa xt Hxq Hfm Hxfree ns attrs Hra) as [Hcar [_ [Hnda [Hnox Hx]]]].
     assert (Hnil : assoc XSI_NIL attrs = None).
     { apply assoc_none. intros Hi. apply in_map_iff in Hi as [[k' s'] [Ek Hks]]. cbn [fst] in Ek. subst k'.
@@ -2666,7 +2979,7 @@ Section Main.
     - (* simple content *)
       destruct (wf_class_inv m Hwc) as [F1 F2 F3 F4 F5 F6 F7 F8 F9 F10 F11 F12 F13].
       rewrite Htx in F11. destruct F11 as [Hwt Hnoe].
-      assert (Hevars : get_element_vars m = [tv]) by (rewrite (evars_eq m Hwc), Hnoe, Htx; reflexivity).
+      assert (Hevars : get_element_vars m = [tv]) by (rewrite (evars_eq m Hwc), Hnoe, Htx, (text_no_wild m tv Hwc Htx); reflexivity).
       assert (Hpairs : pairs cl fs m = emit1 fs tv).
       { rewrite (pairs_plain cl fs m Hwc Hnames), Hevars; [cbn [flat_map]; apply app_nil_r|].
         intros var Hv. rewrite Hevars in Hv. destruct Hv as [<-|[]].
@@ -2699,25 +3012,30 @@ Section Main.
                  Htx Hft eq_refl Hra Htl Eq Hne Hs).
     - (* complex content *)
       assert (Hpf : forall vv, In vv (pairs cl fs m) -> In (fst vv) (get_element_vars m) /\ pair_ok m n vv).
-      { intros vv Hvv. apply (pair_facts cl fs m Hwc Hmc Hnames n Hfe vv Htx Hvv). }
-      assert (Hkids : reads_kids (flat_map (fun vv => e_field (eobj n) (fst vv) (snd vv)) (pairs cl fs m)) kes).
-      { apply (reads_content_elems ns _ text kes); [|exact Hk].
-        intros e He. apply in_flat_map in He as [[var x] [Hvv He]]. cbn [fst snd] in He.
-        destruct (Hpf _ Hvv) as [Hvar [Hv [Hio _]]]. cbn [fst snd] in *.
+      { intros vv Hvv. apply (pair_facts cl fs m Hwc Hmc Hnames n Hfe Hwf Hm Hfw vv Htx Hvv). }
+      assert (Hkids0 : forall e, In e (flat_map (fun vv => e_field (eobj n) (fst vv) (snd vv)) (pairs cl fs m)) -> exists q a k, e = EElem q a k).
+      { intros e He. apply in_flat_map in He as [[var x] [Hvv He]]. cbn [fst snd] in He.
+        destruct (Hpf _ Hvv) as [Hvar [Hio _]]. cbn [fst snd] in *.
+        pose proof (kid_ok_kid m n var _ Hio) as Hv.
         rewrite (e_field_occ m n var x Hv) in He.
         assert (Hitems : In e (map (ienode n var) (occ var x)) -> exists q a k, e = EElem q a k).
         { intros Hi. apply in_map_iff in Hi as [y [<- Hy]].
-          rewrite Forall_forall in Hio. apply (ienode_elem fs m n Hfe var y Hv (Hio y Hy)). }
+          apply (kid_item_elem fs m n Hfe var _ y Hio Hy). }
         assert (He' : In e (e_wrap var (map (ienode n var) (occ var x)))).
         { destruct x; try exact He. destruct (v_nillable var); [exact He|destruct He]. }
         clear He. unfold RoundtripGen.e_wrap in He'. destruct (v_wrapper_qname var) as [[|ch w]|];
           [apply Hitems; exact He'|destruct He' as [<-|[]]; eauto|apply Hitems; exact He']. }
-      destruct (pairs_run cl fs m Hwc Hmc n Hfe IH Hwf Hm Hnest attrs ns (length objs) xtv (pairs cl fs m) kes [] [] Q objs W
+      assert (Hkids : reads_kids (flat_map (fun vv => e_field (eobj n) (fst vv) (snd vv)) (pairs cl fs m)) kes)
+        by (apply (reads_content_elems ns _ text kes Hkids0 Hk)).
+      destruct (pairs_run cl fs m Hwc Hmc n Hfe IH Hwf Hm Hnest attrs ns (length objs) xtv Hword (pairs cl fs m) kes [] [] Q objs W
                   (PEnd (elem_name qn cl) text tail :: rest) Htx Hpf
-                  (ps_once _ _ _ _ (class_pairs_fits c u ok _ _ cl fs m Hwc Hnames Hfe))
+                  (ps_once _ _ _ _ (class_pairs_fits c u ok _ _ cl fs m Hwc Hnames Hfe Hfw))
                   (fun _ _ _ => conj (fun Hi => Hi) (fun Hi => Hi)) Hkids) as [asg' Hrun].
       unfold enW in Hrun. rewrite Hrun. apply run_step. cbn [app].
-      apply (end_complex cl fs m Hwc Hmc Hnames Hfa xt Hxq Hfm Hmaps Hxfree n Hfe Hwf Hm attrs ns (length objs) xtv asg' (elem_name qn cl) text tail Q objs W Htx eq_refl Hra Htl).
+      apply (end_complex cl fs m Hwc Hmc Hnames Hfa xt Hxq Hfm Hmaps Hxfree n Hfe Hwf Hm attrs ns (length objs) xtv Hfw asg' (elem_name qn cl) text tail Q objs W Htx eq_refl Hra Htl).
+      (* the text of an element with child elements is white space *)
+      clear - Hk Hkids0. destruct (flat_map (fun vv => e_field (eobj n) (fst vv) (snd vv)) (pairs cl fs m)) as [|k1 r]; [destruct Hk as [-> _]; reflexivity|].
+      destruct (Hkids0 k1 (or_introl eq_refl)) as [q1 [a1 [kk1 ->]]]. destruct Hk as [Hb _]. exact Hb.
   Qed.
 
   Theorem all_parse : forall n, obj_parses n.
